@@ -81,6 +81,39 @@ def degenerate(names, mods):
 BUILD = {'mva': lambda x: x + 'MVA', 'sevat': lambda x: x + '01', 'chvat': lambda x: x + ' MWST', 'ytunnus': lambda x: x[:-1] + '-' + x[-1:]}
 
 
+ALNUM = '0123456789ABCDEFGHIJKLMNOPQRSTUVWXYZ'
+
+
+def prefix_letter_witnesses(mod, pfx, corp, cap=6):
+    out = []
+    for c in corp:
+        try:
+            v = mod.compact(c)
+        except Exception:
+            continue
+        body = v[2:] if v.upper().startswith(pfx) else v
+        for L in pfx:
+            if not body or body[:1] == L:
+                continue
+            found = None
+            for i in range(1, len(body)):
+                for ch in ALNUM:
+                    cand = L + body[1:i] + ch + body[i + 1:]
+                    try:
+                        if mod.is_valid(cand) is True and mod.compact(cand)[-len(cand):] == cand:
+                            found = cand
+                            break
+                    except Exception:
+                        continue
+                if found:
+                    break
+            if found and found not in out:
+                out += [pfx + found, found]
+        if len(out) >= 2 * cap:
+            break
+    return out
+
+
 def vat_module(pfx):
     from stdnum.util import get_cc_module
     if pfx in ('EU', 'IM'):
@@ -113,6 +146,11 @@ def worker(unit, emit):
                     continue
                 nums.append(v if v.upper().startswith(pfx) else pfx + v)
                 nums.append(v)
+        # numbers of this member state whose national part BEGINS with a character of the prefix itself (a Spanish CIF of
+        # type E or S, a French key F. or R.): where prefix handling by character set or by repeated stripping shows.  Found by
+        # overwriting the first character of documented numbers and searching one further character for validity.
+        if mod is not None and pfx.isalpha():
+            nums += prefix_letter_witnesses(mod, pfx, lib.corpus(name, mod)[:12])
         # other countries' numbers under this prefix
         for other in rnd.sample(MEMBERS, 4):
             m2 = vat_module(other)
